@@ -31,7 +31,22 @@ func init() {
 		return f != nil && (f.Kind == "admits/type" || f.Kind == "abstract-fails") && f.Data["cause"] == causeUnknownMapOptDyn
 	})
 	facet.RegisterKnown("c08DynamicReplaceShapeMismatch", func(facetName string, raw json.RawMessage, f *facet.Failure) bool {
-		return f != nil && (f.Kind == "panic" || f.Kind == "nonconformant") && f.Data["cause"] == causeShapeMismatch
+		return f != nil && (f.Kind == "panic" || f.Kind == "nonconformant" || f.Kind == "abstract-fails" || f.Kind == "safe-fails") && f.Data["cause"] == causeShapeMismatch
+	})
+	// In unsafe mode the unification behind "convert a tuple/object to a
+	// collection of placeholder element type" resolves nested placeholders
+	// optimistically to a neighbour's type and can then fail where the safe
+	// unification (which keeps the placeholder) succeeds, so a conversion is
+	// offered by GetConversion but not by GetConversionUnsafe.
+	facet.RegisterKnown("c08SafeNotUnsafePlaceholderUnification", func(facetName string, raw json.RawMessage, f *facet.Failure) bool {
+		if f == nil || f.Kind != "safe-not-unsafe" || facetName != "safe-implies-unsafe" {
+			return false
+		}
+		var p TypePair
+		if json.Unmarshal(raw, &p) != nil {
+			return false
+		}
+		return p.S.HasDynamic() && hasDynamicCollectionElement(p.T) && structuralToDynamicCollection(p.S, p.T)
 	})
 	// number -> string uses the shortest decimal text that identifies the
 	// number at its own precision; for a whole number held at low precision
@@ -52,4 +67,86 @@ func init() {
 		back, _, err := big.ParseFloat(x.Text('f', -1), 10, 512, big.ToNearestEven)
 		return err == nil && back.IsInt() && back.Cmp(x) != 0
 	})
+}
+
+// hasDynamicCollectionElement: some list/set/map in t has the placeholder as
+// its element type.
+func hasDynamicCollectionElement(t spec.T) bool {
+	switch t.K {
+	case spec.KList, spec.KSet, spec.KMap:
+		return t.E.K == spec.KDynamic || hasDynamicCollectionElement(*t.E)
+	case spec.KTuple:
+		for _, e := range t.Elems {
+			if hasDynamicCollectionElement(e) {
+				return true
+			}
+		}
+	case spec.KObject:
+		for _, a := range t.Attrs {
+			if hasDynamicCollectionElement(a.T) {
+				return true
+			}
+		}
+	}
+	return false
+}
+
+// structuralToDynamicCollection: somewhere a tuple or object of the source,
+// with a placeholder nested inside it, is converted to a collection whose
+// element type is the placeholder (the conversion that unifies member types).
+func structuralToDynamicCollection(s, t spec.T) bool {
+	switch t.K {
+	case spec.KList, spec.KSet:
+		if s.K == spec.KTuple && t.E.K == spec.KDynamic && s.HasDynamic() {
+			return true
+		}
+		switch s.K {
+		case spec.KList, spec.KSet:
+			return structuralToDynamicCollection(*s.E, *t.E)
+		case spec.KTuple:
+			for _, e := range s.Elems {
+				if structuralToDynamicCollection(e, *t.E) {
+					return true
+				}
+			}
+		}
+	case spec.KMap:
+		if s.K == spec.KObject && t.E.K == spec.KDynamic && s.HasDynamic() {
+			return true
+		}
+		switch s.K {
+		case spec.KMap:
+			return structuralToDynamicCollection(*s.E, *t.E)
+		case spec.KObject:
+			for _, a := range s.Attrs {
+				if structuralToDynamicCollection(a.T, *t.E) {
+					return true
+				}
+			}
+		}
+	case spec.KTuple:
+		if s.K == spec.KTuple && len(s.Elems) == len(t.Elems) {
+			for i := range t.Elems {
+				if structuralToDynamicCollection(s.Elems[i], t.Elems[i]) {
+					return true
+				}
+			}
+		}
+	case spec.KObject:
+		for _, ta := range t.Attrs {
+			switch s.K {
+			case spec.KObject:
+				for _, sa := range s.Attrs {
+					if spec.NFC(sa.Name) == spec.NFC(ta.Name) && structuralToDynamicCollection(sa.T, ta.T) {
+						return true
+					}
+				}
+			case spec.KMap:
+				if structuralToDynamicCollection(*s.E, ta.T) {
+					return true
+				}
+			}
+		}
+	}
+	return false
 }
